@@ -172,7 +172,15 @@ def one_session(args):
             spec = beh['files'][name]
             how = 'remove' if kind_ == 'remove' else ('tokenline' if kind_ == 'tokenline' and spec['kind'] == 'text' else 'edit')
             if how == 'tokenline':
-                spec['text'], what = gl.edit_token_line(spec['text'], rnd, case['wd'])
+                done_ = False
+                if tid % 2 == 0:
+                    for tok_ in case['tokens'][:3]:
+                        spec['text'], done_ = gl.edit_into_token(spec['text'], tok_)
+                        if done_:
+                            what = 'text file: first line altered into one that mentions a machine-specific token'
+                            break
+                if not done_:
+                    spec['text'], what = gl.edit_token_line(spec['text'], rnd, case['wd'])
             elif how == 'remove':
                 beh['files'][name] = None
                 what = 'file no longer produced'
@@ -189,12 +197,19 @@ def one_session(args):
                     new = (old + 1) % 256
                     spec['bytes'][i] = new
                     what = 'byte %d changed %d -> %d' % (i, old, new)
-        elif t == 'STDOUT' and kind_ == 'tokenline':
-            beh['stdout'], what = gl.edit_token_line(beh['stdout'], rnd, case['wd'])
-            what = 'stdout: ' + what
-        elif t == 'STDERR' and kind_ == 'tokenline':
-            beh['stderr'], what = gl.edit_token_line(beh['stderr'], rnd, case['wd'])
-            what = 'stderr: ' + what
+        elif t in ('STDOUT', 'STDERR') and kind_ == 'tokenline':
+            key_ = 'stdout' if t == 'STDOUT' else 'stderr'
+            done_ = False
+            if tid % 2 == 0:
+                # an ordinary line altered into one that mentions the machine (same number of lines)
+                for tok_ in case['tokens'][:3]:
+                    beh[key_], done_ = gl.edit_into_token(beh[key_], tok_)
+                    if done_:
+                        what = '%s: first line altered into one that mentions a machine-specific token' % key_
+                        break
+            if not done_:
+                beh[key_], what = gl.edit_token_line(beh[key_], rnd, case['wd'])
+                what = '%s: %s' % (key_, what)
         elif t == 'STDOUT':
             beh['stdout'] = gl.edit_first_line(beh['stdout'], rnd, how='char' if forced_char else None)
             what = 'stdout edited'
